@@ -18,10 +18,16 @@ from fractions import Fraction
 
 from .. import core
 from ..core import Collector, FaultPlan, HarnessError, Log, Sentinel, Violation, ddmin_list
-from ..gen import DEC_FACTORS, RefTable, gen_general, mono_mul, mono_str, render_all, vec_key
+from ..gen import (DEC_FACTORS, RefTable, gen_general, mono_mul, mono_str, render_all, render_plain,
+                   render_simple_context, vec_key)
 from ..questions import FORMAT_SPECS, ask
 
 from decimal import Decimal
+import os
+
+# floats of the history-laden and of the pristine registry are compared bit for bit: both walk the same
+# definitions in the same order, so a memo that is filled along another numerical path shows up
+REL = float(os.environ.get("VERIF_C13_REL", "0"))
 
 NUMTYPES = {"float": float, "Fraction": Fraction, "Decimal": Decimal}
 
@@ -43,8 +49,47 @@ def gen_client(rng, kind):
         return {"kind": "default", "numtype": rng.choice(["float", "float", "Fraction"]),
                 "case_sensitive": rng.random() < 0.8}
     spec = gen_general(rng)
+    _enrich_contexts(rng, spec)
     return {"kind": "gen", "spec": spec, "numtype": rng.choice(["float", "Fraction", "Fraction", "Decimal"]),
             "case_sensitive": rng.random() < 0.8}
+
+
+def _enrich_contexts(rng, spec):
+    """Rules keyed by a *derived* dimension ([s0] -> [d1]: pint rewrites such keys in base dimensions, for a
+    context from a file when it is loaded, for a context built in Python at its first activation), and contexts
+    built in Python (Context.from_lines without the registry, then add_context)."""
+    table = RefTable(spec)
+    bod = table.base_unit_of_dim()
+    for ctx in spec["contexts"]:
+        for dd in spec.get("ddims", ()):
+            if rng.random() < 0.5:
+                b = rng.choice(spec["dims"])
+                m = {bod[b]: 1}
+                for d, e in dd["ref"].items():
+                    m = mono_mul(m, {bod[d]: -e})
+                par = ["n1", rng.choice([1, -1])] if rng.random() < 0.6 else None
+                ctx["rules"].append({"src": {dd["name"]: 1}, "dst": {b: 1}, "bidir": rng.random() < 0.5, "kind": "lin",
+                                     "K": rng.choice(DEC_FACTORS), "par": par, "M": m})
+                if par:
+                    ctx["defaults"].setdefault("n1", rng.choice(["2", "3", "0.5"]))
+        if not ctx["redefs"] and rng.random() < 0.5:
+            ctx["py"] = True
+
+
+def _rule_pairs(spec, table, by_dim):
+    """(unit of the source dimension, unit of the destination dimension) per context rule."""
+    out = []
+    for ctx in spec["contexts"]:
+        for r in ctx["rules"]:
+            ends = []
+            for side in ("src", "dst"):
+                d = {}
+                for k, e in r[side].items():
+                    d = mono_mul(d, table.ddims.get(k, {k: 1}), e)
+                ends.append(by_dim.get(vec_key(d), []))
+            if ends[0] and ends[1]:
+                out.append((ends[0], ends[1], r["bidir"], ctx["name"], bool(r.get("par"))))
+    return out
 
 
 class ClientInfo:
@@ -54,7 +99,13 @@ class ClientInfo:
         self.client = client
         if client["kind"] == "gen":
             spec = client["spec"]
-            self.lines = render_all(spec)
+            self.lines = render_plain(spec)
+            self.py_contexts = []
+            for c in spec["contexts"]:
+                if c.get("py"):
+                    self.py_contexts.append(render_simple_context(c))
+                else:
+                    self.lines.extend(render_simple_context(c))
             self.table = RefTable(spec)
             self.units = list(self.table.order)
             self.spellings = sorted(self.table.spellings())
@@ -70,6 +121,7 @@ class ClientInfo:
                 except Exception:
                     continue
                 self.by_dim.setdefault(vec_key(d), []).append(n)
+            self.rule_pairs = _rule_pairs(spec, self.table, self.by_dim)
         else:
             self.lines = None
             self.table = None
@@ -83,6 +135,8 @@ class ClientInfo:
             self.systems = ["SI", "mks", "cgs", "imperial", "US", "atomic", "Planck"]
             self.groups = ["root", "international", "imperial", "USCSLengthInternational", "Avoirdupois"]
             self.by_dim = None
+            self.rule_pairs = []
+            self.py_contexts = []
 
     def redefining(self, ctxname):
         for n, red, _ in self.contexts:
@@ -147,6 +201,12 @@ class ProgGen:
         x = rng.choice(["1", "2", "3", "0.5", "12", "7", "1000", "0.001"])
         if r < 0.25:
             a, b = self.same_dim_pair(ci) if rng.random() < 0.8 else (self.unit_str(ci), self.unit_str(ci))
+            if info.rule_pairs and rng.random() < 0.35:
+                # across dimensions along a rule of one of the contexts (answerable while it is active)
+                srcs, dsts, bidir = rng.choice(info.rule_pairs)[:3]
+                a, b = rng.choice(srcs), rng.choice(dsts)
+                if bidir and rng.random() < 0.4:
+                    a, b = b, a
             q = [rng.choice(["conv", "conv", "convert"]), x, a, b]
             self.pools[ci].append([q[0], x, b, a])
             return q
@@ -286,6 +346,26 @@ class ProgGen:
                     return {"id": sid, "c": ci, "k": "ask", "q": before}
                 return {"id": sid, "c": ci, "k": "define", "line": line}
             return {"id": sid, "c": ci, "k": "gc"}
+        if r < 0.72 and info.rule_pairs and rng.random() < 0.4 and not getattr(self, "pending", None):
+            # one context, one question along one of its rules, two activations that differ in how the context is
+            # named and in whether the call carries a parameter: the second answer is that of a fresh registry
+            srcs, dsts, bidir, name, has_par = rng.choice(info.rule_pairs)
+            q = [rng.choice(["conv", "convert", "compat_q"]), "2", rng.choice(srcs), rng.choice(dsts)]
+            if q[0] == "compat_q":
+                q = ["compat_q", q[2], q[3]]
+            kws = [{"n1": rng.choice(["2", "3", "1.5"])} if has_par and rng.random() < 0.7 else {}, {}]
+            rng.shuffle(kws)
+            seq = []
+            for kw in kws:
+                seq += [{"c": ci, "k": "enable", "ctx": rng.choice(info.ctx_names[name]), "base": name, "kw": kw},
+                        {"c": ci, "k": "ask", "q": q}]
+                if rng.random() < 0.5:
+                    seq.append({"c": ci, "k": "ask", "q": ["compat", q[-2]]})
+                seq.append({"c": ci, "k": "disable", "n": 1})
+            first = seq.pop(0)
+            first["id"] = sid
+            self.pending = seq
+            return first
         if r < 0.72 and info.contexts:
             name, _, has_par = rng.choice(info.contexts)
             kw = {}
@@ -555,6 +635,8 @@ class _Run:
         try:
             if cl["kind"] == "gen":
                 ureg = self.pint.UnitRegistry(list(info.lines) + extra, **kw)
+                for lines in info.py_contexts:
+                    ureg.add_context(self.pint.Context.from_lines(list(lines), non_int_type=T))
             else:
                 ureg = self.pint.UnitRegistry(**kw)
                 for line in extra:  # the bundled file cannot be extended textually: define() on a pristine registry
@@ -624,9 +706,9 @@ class _Run:
             self.col.trans(q[0], a[0], min(len(st.defs), 3), min(len(st.ctx), 2), st.system is not None,
                            "again" if before else ("hist" if changed or self.col.steps > 1 else "fresh"))
             self.log.ev(s["id"], ci, "ask", q, a)
-            if not core.answers_equal(a, b) and self.shape_R6(ci, q, a, b) and "R6" in core.open_findings():
+            if not core.answers_equal(a, b, REL) and self.shape_R6(ci, q, a, b) and "R6" in core.open_findings():
                 self.col.probe("known_finding:R6")
-            elif not core.answers_equal(a, b):
+            elif not core.answers_equal(a, b, REL):
                 raise Violation("C13.fresh", s["id"], {
                     "client": ci, "question": q, "live_answer": a, "pristine_answer": b,
                     "state": {"defs": st.defs, "contexts": st.ctx, "system": st.system},
@@ -776,9 +858,9 @@ class _Run:
             self.col.checks += 1
             self.col.trans("long_" + what, a[0], min(len(st.defs), 3), min(len(st.ctx), 2), st.system is not None, "hist")
             self.log.ev(s["id"], ci, "long_ask", s["i"], what, a)
-            if not core.answers_equal(a, b) and self.shape_R6(ci, ["long_" + what], a, b) and "R6" in core.open_findings():
+            if not core.answers_equal(a, b, REL) and self.shape_R6(ci, ["long_" + what], a, b) and "R6" in core.open_findings():
                 self.col.probe("known_finding:R6")
-            elif not core.answers_equal(a, b):
+            elif not core.answers_equal(a, b, REL):
                 raise Violation("C13.fresh", s["id"], {
                     "client": ci, "question": ["long", what, rec], "live_answer": a, "pristine_answer": b,
                     "state": {"defs": st.defs, "contexts": st.ctx, "system": st.system}, "asked_before": True})
